@@ -27,7 +27,11 @@ func hC11Hostile() {
 	}
 	cfg := &pipeCfg{maxMsg: 64, clientCodec: CodecProto} // above every length the symbolic bytes can state (limits: C10)
 	cfg.svcProtos = []Protocol{pipeProtocols[verifChoose("target", 4)]}
-	cfg.svcCodecs = []string{[]string{CodecJSON, CodecProto}[c11choose(aspect, 0, "svcCodec", 2)]}
+	svcCodec := 0
+	if c11vary(aspect, 0) || c11vary(aspect, 4) { // (backend behaviours meet both the re-encoding and the re-framing writer)
+		svcCodec = verifChoose("svcCodec", 2)
+	}
+	cfg.svcCodecs = []string{[]string{CodecJSON, CodecProto}[svcCodec]}
 	cfg.svcComp = c11choose(aspect, 0, "svcComp", 2) == 1
 	cfg.kind = []int{fkUnary, fkBidi}[verifChoose("kind", 2)]
 	if cfg.svcProtos[0] == ProtocolREST {
